@@ -15,7 +15,8 @@ LEVEL = "exploration"
 RULE = ("case = random family + type AST x 5 formats x conforming values inside the format's representable subset "
         "(decided by the format library itself: dump+reload of the reference basic tree must be the identity and the "
         "native-typed reference tree must dump). Oracles: (a) decode_F(encode_F(v)) deep-equals v; (b) parse_F(doc) == "
-        "parse_F(dump_F(REF_ENCODE_F(S,v))); (c) mixin method, Encoder/Decoder object and one-shot function agree. "
+        "parse_F(dump_F(REF_ENCODE_F(S,v))); (c) mixin method, Encoder/Decoder object, one-shot function and the codec "
+        "objects built with a user default_dialect that sets nothing (merged over the format's own dialect) agree. "
         "distinct_nontrivial = distinct (format, type shape, value repr) triples kept (not discarded).")
 ASSUMPTIONS = [
     "the format libraries (json, orjson, PyYAML, msgpack, tomllib/tomli_w) are trusted to render the reference tree",
@@ -126,6 +127,14 @@ def run_case(seed, tier, rec, st):
         except Exception as e:
             rec.violation(f"{fname}:codec-build:{type(e).__name__}", {"type": fam.to_json(), "error": str(e)[:300]}, {"stage": "build"})
             return
+        # the same codecs with a user dialect that sets nothing: merged over the format's own dialect it must change nothing
+        from mashumaro.dialect import Dialect
+        neutral = rng.choice([type("Neutral", (Dialect,), {}), type("NeutralS", (Dialect,), {"serialization_strategy": {}})])
+        try:
+            enc_n, dec_n = F["E"](W, default_dialect=neutral), F["D"](W, default_dialect=neutral)
+        except Exception as e:
+            rec.violation(f"{fname}:codec-build-neutral-dialect:{type(e).__name__}", {"type": fam.to_json(), "error": str(e)[:300]}, {"stage": "build"})
+            return
         # shape codec for the bare inner type too (not for TOML: table at top level)
         shape = None
         if fname != "toml":
@@ -180,6 +189,8 @@ def run_case(seed, tier, rec, st):
                                 getattr(W, of["frm"])(getattr(v, of["to"])())
                             except Exception:
                                 pass
+                if is_dc and j % 2 == 1:
+                    routes.append(("codec-neutral-dialect", lambda: enc_n.encode(v), lambda doc: dec_n.decode(doc)))
                 if j % 3 == 0:
                     ttl = W if is_dc else common.eval_type(fam, tt)
                     routes.append(("func", lambda: F["fe"](v, ttl), lambda doc: F["fd"](doc, ttl)))
